@@ -158,6 +158,28 @@ pub struct Witness {
     pub copy_vals: Vec<Fe>,
     pub unused_vals: Vec<Fe>,
     pub faults: Vec<CellFault>,
+    /// Byzantine edits of the public input: (column, row, edit). Applied to
+    /// the instance every party receives, but not to the values the witness
+    /// generator computed from the original instance.
+    #[serde(default)]
+    pub inst_faults: Vec<(usize, usize, FaultKind)>,
+}
+
+impl Witness {
+    /// The instance columns as delivered to prover, verifier and checker.
+    pub fn effective_instance(&self) -> Vec<Vec<Fq>> {
+        let mut cols: Vec<Vec<Fq>> =
+            self.instance.iter().map(|c| c.iter().map(|x| x.0).collect()).collect();
+        for (c, r, k) in &self.inst_faults {
+            if let Some(v) = cols.get_mut(*c).and_then(|col| col.get_mut(*r)) {
+                match k {
+                    FaultKind::Add(d) => *v += d.0,
+                    FaultKind::Set(x) => *v = x.0,
+                }
+            }
+        }
+        cols
+    }
 }
 
 // ------------------------------------------------------------------ circuit
@@ -1010,7 +1032,15 @@ pub fn gen_witness(rng: &mut Prng, spec: &Spec) -> Witness {
         spec.lookup_uses.iter().map(|li| rng.usize(spec.lookups[*li].table.len())).collect();
     let copy_vals = spec.copies.iter().map(|_| Fe(small_or_any(rng))).collect();
     let unused_vals = spec.unused.iter().map(|_| Fe(draw_fq(rng))).collect();
-    Witness { instance, gate_inputs, lookup_rows, copy_vals, unused_vals, faults: vec![] }
+    Witness {
+        instance,
+        gate_inputs,
+        lookup_rows,
+        copy_vals,
+        unused_vals,
+        faults: vec![],
+        inst_faults: vec![],
+    }
 }
 
 /// All sites at which a Byzantine edit can be placed, with their class.
